@@ -38,6 +38,10 @@ CanonVerdict(L, o) ==
 LinkVerdict(c, o) ==
   IF ~Compatible(c.src, c.dst) THEN (IF o.res = "err:FinamMetaDataError" THEN "ok" ELSE "compatible-iff-same-locations@1")
   ELSE IF o.res # "ok" THEN "transform-located@1"
+  ELSE IF c.stk THEN      \* two time entries: both laid out for the consumer
+       (IF o.shape # <<2>> \o DataShape(c.dst) THEN "transform-shape@1"
+        ELSE IF o.field # FieldC(c.dst) \o [p \in 1..Len(FieldC(c.dst)) |-> FieldC(c.dst)[p] + 500] THEN "transform-located@1"
+        ELSE "ok")
   ELSE IF o.shape # <<1>> \o DataShape(c.dst) THEN "transform-shape@1"
   ELSE IF Len(o.field) # Len(FieldC(c.dst)) THEN "transform-shape@1"
   ELSE IF ~c.masked /\ o.field # FieldC(c.dst) THEN "transform-located@1"
